@@ -66,6 +66,16 @@ Definition text_ok (ty : etype) (v : cdata) : Prop :=
 Definition shortname_ok (ty : etype) (content : list (etree + cdata)) : Prop :=
   is_named_in_version T ty ver = Val true -> exists e, In (inl e) content /\ e_name e = name_short_name T.
 
+(* a character data element (content mode Characters) holds at most one value (fix 3656060), in every node *)
+Definition count_text (l : list (etree + cdata)) : nat :=
+  List.length (filter (fun c => match c with inr _ => true | inl _ => false end) l).
+
+Inductive single_valued : etree -> Prop :=
+| sv_node name ty attrs content comment :
+    (content_mode T ty = Val MCharacters -> (count_text content <= 1)%nat) ->
+    (forall c, In (inl c) content -> single_valued c) ->
+    single_valued (ENode name ty attrs content comment).
+
 Inductive StrictValid : etree -> Prop :=
 | SV_node name ty attrs content comment :
     attrs_valid ty attrs -> children_ok ty [] [] content -> shortname_ok ty content ->
